@@ -188,11 +188,8 @@ def encode_bech32_checksum(s, network="mainnet"):
 
 def decode_bech32(s):
     """Returns network, segwit version and the hash from the bech32 address"""
-    regtest_prefix = PREFIX["regtest"]
-    if s.startswith(regtest_prefix):
-        hrp, raw_data = regtest_prefix, s[5:]
-    else:
-        hrp, raw_data = s.split("1")
+    # the separator is the last "1" ("1" is not in the data alphabet)
+    hrp, _, raw_data = s.rpartition("1")
 
     network = NET_FOR_PREFIX.get(hrp)
     if not network:
